@@ -83,7 +83,21 @@ func slotOf(d []byte) uint32  { return binary.LittleEndian.Uint32(d[4:8]) }
 func powerOf(d []byte) uint64 { return binary.LittleEndian.Uint64(d[8:16]) }
 
 func lossyHistory(res *core.Result, r *core.RNG, tier string) (*sim, error) {
+	// the server's window: at offset 0, one or several weeks on, or about to rotate (the rotation
+	// then happens between the originals and the sync round)
 	now0 := uint32(600 + r.Intn(800))
+	rotateMid := false
+	switch r.Intn(4) {
+	case 1:
+		now0 = uint32(3300 + r.Intn(1700))
+		res.Count("lossy.window-offset-nonzero")
+	case 2:
+		now0 = uint32(2016*r.Range(2, 6) + 1300 + r.Intn(1800))
+		res.Count("lossy.window-offset-nonzero")
+	case 3:
+		now0 = uint32(2016*r.Intn(4) + 3100 + r.Intn(90))
+		rotateMid = true
+	}
 	s, err := newSim(res, r, "lossy", now0, false)
 	if err != nil {
 		return nil, err
@@ -112,6 +126,26 @@ func lossyHistory(res *core.Result, r *core.RNG, tier string) (*sim, error) {
 		return s, err
 	}
 	defer os.RemoveAll(cd.dir)
+	// when the device was installed (the origin of its history file): at genesis, after the start of
+	// the server's window, or (window offset > 0) before it
+	span := uint32(300)
+	if rotateMid {
+		span = 120
+	}
+	origin0 := uint32(0)
+	switch r.Intn(3) {
+	case 1:
+		origin0 = now0 - span - 120 - uint32(r.Intn(60))
+		res.Count("lossy.installed-after-window-start")
+	case 2:
+		if off := w.S.VerifSnapshot().Offset; off > 0 {
+			origin0 = off - uint32(r.Intn(600)) - 1
+			res.Count("lossy.installed-before-window-start")
+		}
+	}
+	var ob [4]byte
+	binary.LittleEndian.PutUint32(ob[:], origin0)
+	os.WriteFile(filepath.Join(cd.dir, client.HistoryFile), ob[:], 0644)
 	// ---- phase 1: the real client reads the meter file and reports
 	c, err := client.NewClient(cd.dir)
 	if err != nil {
@@ -119,7 +153,7 @@ func lossyHistory(res *core.Result, r *core.RNG, tier string) (*sim, error) {
 	}
 	G := int64(glow.GenesisTime)
 	n := r.Range(4, 12)
-	base := w.Now - uint32(r.Intn(300))
+	base := w.Now - uint32(r.Intn(int(span)))
 	type reading struct {
 		slot uint32
 		text string
@@ -189,10 +223,12 @@ func lossyHistory(res *core.Result, r *core.RNG, tier string) (*sim, error) {
 		}
 		w.Sigs = append(w.Sigs, srv.SigTriple{Key: append([]byte{}, d.K.Pub[:]...), Msg: refReportSigningBytes(d.ID, slotOf(o), powerOf(o)), Sig: append([]byte{}, o[16:80]...)})
 	}
-	if r.Chance(30) { // a rotation in between (the slots stay inside the window and the acceptance range)
-		sn := w.S.VerifSnapshot()
-		if int64(w.Now)+2600-int64(sn.Offset) > 3200 && int64(base)-130 >= int64(sn.Offset)+2016 {
-			w.SetNow(w.Now + 0)
+	if rotateMid { // the week rotation happens between the originals and the sync round
+		before := w.S.VerifSnapshot().Offset
+		w.SetNow(w.Now + uint32(110+r.Intn(90)))
+		s.rotateTick()
+		if w.S.VerifSnapshot().Offset != before {
+			res.Count("lossy.rotated-before-sync")
 		}
 	}
 	// ---- phase 2: one sync round of the real client code
@@ -295,7 +331,7 @@ func lossyHistory(res *core.Result, r *core.RNG, tier string) (*sim, error) {
 
 func lossyWorker(res *core.Result, r *core.RNG, tier, out string) error {
 	var items []string
-	n := 3
+	n := 6
 	if tier == "thorough" {
 		n = 40
 	}
@@ -309,7 +345,7 @@ func lossyWorker(res *core.Result, r *core.RNG, tier, out string) error {
 		}
 		s.finish(&items)
 	}
-	res.Required = []string{"lossy.history", "lossy.retransmission", "lossy.dropped"}
-	res.Rule = "real client -> scripted UDP relay (each original independently dropped / delivered / duplicated, shuffled) -> real server; readings positive, negative, sentinel, unparseable, int32 extremes; optional dead second server (failed sync attempts); then one completed sync round of the real client code and delivery of the retransmissions; non-trivial = at least one retransmission; distinct by full history"
+	res.Required = []string{"lossy.history", "lossy.retransmission", "lossy.dropped", "lossy.window-offset-nonzero", "lossy.installed-after-window-start", "lossy.rotated-before-sync"}
+	res.Rule = "real client -> scripted UDP relay (each original independently dropped / delivered / duplicated, shuffled) -> real server; readings positive, negative, sentinel, unparseable, int32 extremes; server window at offset 0 / several weeks on / rotating between the originals and the sync round; device installed at genesis / after / before the start of the server window; optional dead second server (failed sync attempts); then one completed sync round of the real client code and delivery of the retransmissions; non-trivial = at least one retransmission; distinct by full history"
 	return writeServerCases(res, out, "lossy", items)
 }
